@@ -5,6 +5,8 @@ import glob, json, subprocess, sys
 from concurrent.futures import ThreadPoolExecutor
 def one(m):
     j = json.load(open(m))
+    if j.get("obsolete"):
+        return (j["id"], None, ["obsolete"])
     checks = sorted(set(d["check"] for d in j.get("detected_by", []) if d["exit"] == 1))
     if not checks:
         return (j["id"], None, [])
@@ -18,7 +20,7 @@ bad = 0
 with ThreadPoolExecutor(max_workers=int(sys.argv[1]) if len(sys.argv) > 1 else 6) as ex:
     for sid, checks, fired in ex.map(one, metas):
         if checks is None:
-            print(sid, "no detector recorded"); continue
+            print(sid, "obsolete (no longer breaks the property on the repaired tree)" if fired == ["obsolete"] else "no detector recorded"); continue
         if not fired:
             bad += 1
         print(sid, "ok" if fired else "REGRESSION", checks, "->", fired, flush=True)
